@@ -1428,19 +1428,11 @@ namespace awkward {
       for (auto content : contents_) {
         contents.push_back(content.get()->rpad(target, posaxis, depth));
       }
-      if (contents.empty()) {
-        return std::make_shared<RecordArray>(identities_,
-                                             parameters_,
-                                             contents,
-                                             recordlookup_,
-                                             length_);
-      }
-      else {
-        return std::make_shared<RecordArray>(identities_,
-                                             parameters_,
-                                             contents,
-                                             recordlookup_);
-      }
+      return std::make_shared<RecordArray>(identities_,
+                                           parameters_,
+                                           contents,
+                                           recordlookup_,
+                                           length_);
     }
   }
 
@@ -1458,19 +1450,11 @@ namespace awkward {
         contents.push_back(
           content.get()->rpad_and_clip(target, posaxis, depth));
       }
-      if (contents.empty()) {
-        return std::make_shared<RecordArray>(identities_,
-                                             parameters_,
-                                             contents,
-                                             recordlookup_,
-                                             length_);
-      }
-      else {
-        return std::make_shared<RecordArray>(identities_,
-                                             parameters_,
-                                             contents,
-                                             recordlookup_);
-      }
+      return std::make_shared<RecordArray>(identities_,
+                                           parameters_,
+                                           contents,
+                                           recordlookup_,
+                                           length_);
     }
   }
 
